@@ -473,6 +473,9 @@ class GraphEdges(BoundedCheck):
         yield {'script': 'Y = C + G + 0.25 * Y', 'seed': 1}
         yield {'script': 'C = {a}[-1] + <e>[1]', 'seed': 2}
         yield {'script': "Y = X + V['2005'] + W[`2001`]", 'seed': 3, 'named': True}
+        # several verbatim fragments in one equation: the terms between, before and after them are terms of the equation
+        yield {'script': 'Y = `1.5 *` X + C[-1] `- 0.5` + G', 'seed': 4, 'fragments': ['X[t]', 'C[t-1]', 'G[t]']}
+        yield {'script': 'Y = A `+ 2.0 *` B[1] `+ 3.0 *` {c} `+` <e>[-2]', 'seed': 5, 'fragments': ['A[t]', 'B[t+1]', 'c[t]', 'e[t-2]']}
 
     @staticmethod
     def label(v: G.Var) -> str:
@@ -494,6 +497,12 @@ class GraphEdges(BoundedCheck):
                 if want not in preds:
                     out.append(Violation('edge x -> y for exactly the variable, parameter and error terms on the right-hand side of y (named periods included)',
                                          'c20.edges:named-period', jcase, want, sorted(preds), 'edges'))
+            return out
+        if case.get('fragments'):
+            preds = set(g.predecessors('Y[t]')) if 'Y[t]' in g.nodes else set()
+            if {x for x in preds if re.fullmatch(r'[_A-Za-z]\w*\[t(?:[+-]\d+)?\]', x)} != set(case['fragments']):
+                out.append(Violation('edge x -> y for exactly the variable, parameter and error terms on the right-hand side of y (verbatim fragments are no terms, what stands between them is)',
+                                     'c20.edges:fragments', jcase, sorted(case['fragments']), sorted(preds), 'edges'))
             return out
         p = G.parse_script(script)
         by_name = {}
@@ -552,4 +561,96 @@ class GraphEdges(BoundedCheck):
                                 if changed:
                                     out.append(Violation('a series with no edge into y cannot influence y', 'c20.influence-without-edge',
                                                          dict(jcase, node=node, perturbed=lab), 'unchanged', 'changed', 'no_edge_no_influence'))
+        return out
+
+
+# ---------------------------------------------------------------------------------------------------------------------
+# tokenisation: the library's term_re against the documented term grammar, written here as an independent reference
+# ---------------------------------------------------------------------------------------------------------------------
+import keyword as _keyword
+import re as _re_ref
+
+_KW = '|'.join(_keyword.kwlist)
+# The documented term grammar (README / parser module header): verbatim code in backticks; a reserved word followed by an index is invalid;
+# reserved words; a function is a (possibly dotted, at any depth) name followed - after optional blanks - by an opening parenthesis;
+# {parameter}, <error> and plain variable names, each optionally followed by an index in square brackets whose surrounding blanks
+# are not part of the index.
+REFERENCE_TERM_RE = _re_ref.compile(
+    r'(?:(?P<_VERBATIM>[`](.+?)[`]))|'
+    rf'(?:(?P<_INVALID>(?:{_KW})\s*\[.*?\]))|'
+    rf'(?:\b(?P<_KEYWORD>{_KW})\b)|'
+    r'(?:(?P<_FUNCTION>[_A-Za-z][_A-Za-z0-9.]*)\s*(?=\())|'
+    r'(?:(?:\{\s*(?P<_PARAMETER>[_A-Za-z][_A-Za-z0-9]*)\s*\})|(?:\<\s*(?P<_ERROR>[_A-Za-z][_A-Za-z0-9]*)\s*\>)|(?:(?P<_VARIABLE>[_A-Za-z][_A-Za-z0-9]*)))'
+    r'(?:\[\s*(?P<INDEX>.*?)\s*\])?'
+)
+
+
+class _Slow(Exception):
+    pass
+
+
+def _tokens(pattern, text):
+    return [(m.span(), {k: v for k, v in m.groupdict().items() if v is not None}) for m in pattern.finditer(text)]
+
+
+class TokeniserDifferential(BoundedCheck):
+    """term_re cuts every text into the same terms (kind, name, index text) as the documented term grammar, and does so in time linear in
+    practice (no input of a few dozen characters takes seconds)."""
+    name = 'parser.tokeniser'
+    props = ('C01', 'C03', 'C13', 'C14')
+    bound_quick = ('all strings of length <= 5 over the 12 symbols {a, B, _, 1, ., (, [, ], space, {, <, `} (271 452 strings, sampled 1 in 3), a template family (names x dotted '
+                   'depth 0-3 x blanks before the parenthesis x index texts with inner blanks x brace / angle forms), identifiers of 20-60 characters under a 2 s alarm')
+    bound_thorough = 'all strings of length <= 6 over the same symbols'
+    required_covers = ('short', 'template', 'long-identifier')
+    ALPHA = ['a', 'B', '_', '1', '.', '(', '[', ']', ' ', '{', '<', '`']
+
+    def cases(self, tier, seed):
+        L = 6 if tier == 'thorough' else 5
+        k = 0
+        for n in range(1, L + 1):
+            for tup in itertools.product(self.ALPHA, repeat=n):
+                k += 1
+                if tier == 'thorough' or n <= 4 or k % 3 == seed % 3:
+                    yield {'kind': 'short', 'text': ''.join(tup)}
+        names = ['X', 'x1', '_y', 'is_open', 'if', 'not', 'notx', 'lambda_', 'exp', 'np']
+        for nm in names:
+            for depth in range(0, 4):
+                dotted = '.'.join([nm] + ['sub', 'linalg', 'norm'][:depth])
+                for blanks in ('', ' ', '  ', '\t'):
+                    yield {'kind': 'template', 'text': f'Y = {dotted}{blanks}(X, 2) + 1'}
+            for ix in ('1', '-1', '+2', '- 1', "'2000'", '"2000Q1"', '`k`', 't', ''):
+                for a in ('', ' ', '  '):
+                    for b in ('', ' ', '  '):
+                        for form in ('{nm}[{a}{ix}{b}]', '{{{a}{nm}{b}}}[{ix}]', '<{nm}>[{a}{ix}{b}]', '{nm} [{ix}]', '{nm}[{a}{ix}{b}] + {nm}'):
+                            yield {'kind': 'template', 'text': 'Z = ' + form.format(nm=nm, ix=ix, a=a, b=b)}
+        for n in (20, 27, 34, 45, 60):
+            for stem in ('household_disposable_income_', 'a', 'a_1', 'Ab9_'):
+                ident = (stem * n)[:n]
+                for text in (f'{ident} = 1', f'Y = {ident} + {ident}[-1]', f'Y = np.{ident}(X) + {ident}', f'{{{ident}}} + <{ident}>'):
+                    yield {'kind': 'long-identifier', 'text': text}
+
+    def check(self, case, res: BoundedResult):
+        import signal
+        import fsic.parser as fp
+        out = []
+        text = case['text']
+        res.cover(case['kind'])
+        res.nontrivial.add(text)
+
+        def on_alarm(signum, frame):
+            raise _Slow()
+        old = signal.signal(signal.SIGALRM, on_alarm)
+        signal.setitimer(signal.ITIMER_REAL, 2.0)
+        try:
+            got = _tokens(fp.term_re, text)
+        except _Slow:
+            out.append(Violation('tokenising a short text terminates promptly (parse_model terminates for every input)', 'parser.tokeniser-slow', case, '< 2 s', 'interrupted after 2 s'))
+            return out
+        finally:
+            signal.setitimer(signal.ITIMER_REAL, 0)
+            signal.signal(signal.SIGALRM, old)
+        want = _tokens(REFERENCE_TERM_RE, text)
+        if got != want:
+            out.append(Violation('term_re cuts the text into the terms of the documented grammar (kind, name, index text)', 'parser.tokeniser-differs', case,
+                                 [d for _, d in want][:4], [d for _, d in got][:4]))
         return out
